@@ -1084,7 +1084,7 @@ package restful
 //@ func insertMime
 //@ uses P/C05.low-unfold
 //@ opt opaque.P mimeLow
-//@ props C02 C05
+//@ props C02 C05 C19
 //@ ensures len: len(result) == len(l) + 1
 //@ ensures owned: fresh(result) || sameArray(result, l)
 // C05: the entry goes behind every entry of at least its quality and before the first entry of lower quality; the
@@ -1103,8 +1103,9 @@ package restful
 //@ loop 0 invariant Q/before: forall(0, it_i, func(k int) bool { return l[k].quality >= e.quality })
 //@ loop 0 invariant Q/same: forall(0, len(l), func(k int) bool { return l[k] == old(l[k]) })
 
+// (C19: the ranking is a function of the header alone — not of the trace switch, nor of earlier requests)
 //@ func sortedMimes
-//@ props C02 C05
+//@ props C02 C05 C19
 //@ nopanic
 //@ modifies nothing
 //@ uses R/C05.len-bounds
@@ -1134,7 +1135,7 @@ package restful
 
 // C05: the writer of the range the Accept header ranks highest among those the route can answer
 //@ func (*Response).EntityWriter
-//@ props C05
+//@ props C05 C19
 //@ uses B/C05.rank-range
 //@ uses B/C05.rank-order
 //@ uses B/C05.rank-pos
